@@ -43,7 +43,7 @@ func (Driver) Batches(tier string) int {
 
 func (Driver) Run(c *core.Ctx) {
 	escalateSpent = 0
-	n := int64(c.N(15000, 300000))
+	n := int64(c.N(120000, 300000))
 	for i := int64(0); i < n; i++ {
 		if !c.Want(i) {
 			continue
